@@ -307,7 +307,7 @@ Proof.
     apply negb_true_iff in E0. unfold has in E0. destruct (get i (insts s0)) eqn:Ei; [discriminate|].
     intros j x' y' Ex' Ey'. unfold obs_step in Ey'. cbn [fst snd] in Ey'.
     apply refresh_get_P8 in Ey'. destruct Ey' as (y1 & Ey1 & Hal & Hg & _).
-    cbn [insts oi RecordSet.set eta_sys eta_obs] in Ex', Ey1. rewrite get_set in Ex'. rewrite get_set in Ey1. destruct (N.eqb_spec i j).
+    unfold set_stage in Ex'. cbn [insts oi RecordSet.set eta_sys eta_obs] in Ex', Ey1. rewrite get_set in Ex'. rewrite get_set in Ey1. destruct (N.eqb_spec i j).
     + injection Ex' as <-. injection Ey1 as <-. split; [rewrite Hal; reflexivity|]. rewrite Hg. reflexivity.
     + destruct (HA0 j x' y1 Ex' Ey1) as [A1 A2]. split; [congruence|]. now rewrite Hg.
   - (* ELaunch *)
